@@ -1,5 +1,5 @@
 (* Proofs.Refine: the byte-level store of a data instance refines the abstract versioned core. *)
-From DV Require Import Base.Prelude Base.Int Base.Lex Gen.Consts
+From DV Require Import Base.Prelude Base.Int Base.Lex Base.KeyShape Gen.Consts Gen.KeyClasses
      Model.Dag Model.Resolve Model.Core Model.Copy Model.Keys Model.KV Model.KVRange Model.Refine
      Proofs.Resolve Proofs.Core Proofs.Copy Proofs.Keys Proofs.KV Proofs.KVRange.
 From Coq Require Import Sorting.Sorted.
@@ -893,4 +893,433 @@ Proof.
   intros Hi W e He B. destruct (W e He) as (i' & t & v & c & m & Hi' & E). rewrite E in *.
   apply in_rangeb_in_range in B. apply (instance_range i i' t v c m Hi Hi') in B. subst i'.
   apply prefixb_is_prefix. rewrite data_key_split. now eexists.
+Qed.
+
+(* ==== Round 4: keys-only listings, executable abstract answers, keyvalue endpoints, DeleteRange ==== *)
+
+(* the keys-only store (values not loaded) refines the same core with every value read as [] *)
+Lemma kv_get_strip k s : kv_get k (strip true s) = match kv_get k s with Some _ => Some [] | None => None end.
+Proof.
+  unfold strip. induction s as [|[a b] s IH]; [reflexivity|]. cbn [map kv_get fst].
+  destruct (lex_compare k a); auto.
+Qed.
+
+Lemma refines_strip i enc venc c s :
+  Refines i enc venc c s -> Refines i enc (fun _ => []) c (strip true s).
+Proof.
+  intros [R1 R2 R3 R4]. constructor.
+  - apply (sorted_strip true s). exact R1.
+  - intros k v Hv. specialize (R2 k v Hv). rewrite !kv_get_strip. unfold entry_matches in *.
+    destruct (ent_of c k v) as [[x|]|]; destruct R2 as [-> ->]; split; reflexivity.
+  - exact R3.
+  - intros e He O. destruct (strip_in true s e He) as (e0 & H0 & E0). rewrite <- E0. apply R4; [exact H0|].
+    now rewrite E0.
+Qed.
+
+Lemma keys_of_range_of_core enc l :
+  res_bind (range_of_core enc (fun _ => []) l) (fun l' => Ok (map fst l')) = res_map (map enc) (keys_of_core l).
+Proof.
+  induction l as [|[k r] l IH]; [reflexivity|]. destruct r; cbn [range_of_core keys_of_core]; try reflexivity; [|exact IH].
+  revert IH. destruct (range_of_core enc (fun _ => []) l), (keys_of_core l); simpl; intro IH; try congruence.
+Qed.
+
+Lemma vals_of_range_of_core enc venc l :
+  range_of_core enc venc l = res_map (map (fun kx => (enc (fst kx), venc (snd kx)))) (vals_of_core l).
+Proof.
+  induction l as [|[k r] l IH]; [reflexivity|]. destruct r; cbn [range_of_core vals_of_core]; try reflexivity; [|exact IH].
+  rewrite IH. destruct (vals_of_core l); reflexivity.
+Qed.
+
+(* ---- the executable enumeration of the abstract keys of an interval ---- *)
+Lemma lookup_kv_in k v st : lookup_kv k v st <> None <-> In (k, v) (map fst st).
+Proof.
+  induction st as [|[[k' v'] e] st IH]; simpl; [tauto|].
+  destruct ((k =? k') && (v =? v')) eqn:E.
+  - apply andb_true_iff in E as [E1 E2]. apply N.eqb_eq in E1, E2. subst. split; [now left|discriminate].
+  - rewrite IH. split; [now right|]. intros [H|H]; [|exact H]. inversion H. subst.
+    rewrite !N.eqb_refl in E. discriminate.
+Qed.
+
+Lemma core_keys_spec c k : In k (core_keys c) <-> exists u, ent_of c k u <> None.
+Proof.
+  unfold core_keys, ent_of. rewrite nodup_In, in_map_iff. split.
+  - intros ([[k' u] e] & <- & H). exists u. apply lookup_kv_in. apply in_map_iff. now exists ((k', u), e).
+  - intros (u & H). apply lookup_kv_in in H. apply in_map_iff in H as ([[k' u'] e] & E & H).
+    cbn [fst] in E. inversion E. subst. now exists ((k, u), e).
+Qed.
+
+Section SortBy.
+Variable enc : N -> bytes.
+Hypothesis enc_inj : forall k1 k2, enc k1 = enc k2 -> k1 = k2.
+
+Lemma insert_by_in k l x : In x (insert_by enc k l) <-> x = k \/ In x l.
+Proof.
+  induction l as [|y l IH]; simpl; [intuition|].
+  destruct (lex_compare (enc k) (enc y)) eqn:E; simpl.
+  - apply lex_compare_eq in E. apply enc_inj in E. subst y. intuition.
+  - intuition.
+  - rewrite IH. intuition.
+Qed.
+
+Lemma insert_by_sorted k l : StronglySorted lex_lt (map enc l) -> StronglySorted lex_lt (map enc (insert_by enc k l)).
+Proof.
+  induction l as [|y l IH]; intro S; simpl.
+  - repeat constructor.
+  - inversion S as [|? ? S1 S2]. subst. destruct (lex_compare (enc k) (enc y)) eqn:E; cbn [map].
+    + exact S.
+    + constructor; [exact S|]. constructor; [exact E|].
+      rewrite Forall_forall in *. intros z Hz. eapply lex_compare_lt_trans; [exact E|]. now apply S2.
+    + constructor; [now apply IH|]. rewrite Forall_forall in *. intros z Hz.
+      apply in_map_iff in Hz as (x & <- & Hx). apply insert_by_in in Hx as [->|Hx].
+      * now apply lex_gt_lt.
+      * apply S2. now apply in_map.
+Qed.
+
+Lemma sort_by_in l x : In x (sort_by enc l) <-> In x l.
+Proof.
+  induction l as [|y l IH]; simpl; [tauto|]. rewrite insert_by_in, IH. intuition.
+Qed.
+
+Lemma sort_by_sorted l : StronglySorted lex_lt (map enc (sort_by enc l)).
+Proof.
+  induction l as [|y l IH]; simpl; [constructor|]. now apply insert_by_sorted.
+Qed.
+
+(* two ascending lists with the same members are the same list *)
+Lemma sorted_unique l1 : forall l2,
+  StronglySorted lex_lt (map enc l1) -> StronglySorted lex_lt (map enc l2) ->
+  (forall k, In k l1 <-> In k l2) -> l1 = l2.
+Proof.
+  assert (IRR : forall a, ~ lex_lt a a).
+  { intros a H. unfold lex_lt in H. rewrite lex_compare_refl in H. discriminate. }
+  induction l1 as [|a l1 IH]; intros [|b l2] S1 S2 M.
+  - reflexivity.
+  - exfalso. apply (proj2 (M b)). now left.
+  - exfalso. apply (proj1 (M a)). now left.
+  - cbn [map] in S1, S2. inversion S1 as [|? ? S1a S1b]. inversion S2 as [|? ? S2a S2b]. subst.
+    rewrite Forall_forall in S1b, S2b.
+    assert (a = b).
+    { destruct (proj1 (M a) (or_introl eq_refl)) as [E|Ha]; [now symmetry|].
+      destruct (proj2 (M b) (or_introl eq_refl)) as [E|Hb]; [exact E|]. exfalso.
+      apply (IRR (enc a)). eapply lex_compare_lt_trans; [apply S1b; apply in_map; exact Hb|].
+      apply S2b. now apply in_map. }
+    subst b. f_equal. apply IH; [assumption..|]. intro k. split; intro H.
+    + destruct (proj1 (M k) (or_intror H)) as [E|H']; [|exact H']. subst k. exfalso.
+      apply (IRR (enc a)). apply S1b. now apply in_map.
+    + destruct (proj2 (M k) (or_intror H)) as [E|H']; [|exact H']. subst k. exfalso.
+      apply (IRR (enc a)). apply S2b. now apply in_map.
+Qed.
+
+Lemma interval_keys_spec c lo hi ks :
+  StronglySorted lex_lt (map enc ks) ->
+  (forall k, In k ks <-> ((exists u, ent_of c k u <> None) /\ lex_le lo (enc k) /\ lex_le (enc k) hi)) ->
+  ks = interval_keys enc c lo hi.
+Proof.
+  intros S M. apply sorted_unique; [exact S|apply sort_by_sorted|].
+  intro k. unfold interval_keys. rewrite sort_by_in, filter_In, core_keys_spec, andb_true_iff, !lex_leb_le. apply M.
+Qed.
+End SortBy.
+
+(* ---- range and keys-only range reads of a refining store = the executable abstract answers ---- *)
+Section AbsRanges.
+Variable i : N.
+Variable enc : N -> bytes.
+Variable venc : N -> bytes.
+Hypothesis Hi : id_ok i.
+Hypothesis enc_inj : forall k1 k2, enc k1 = enc k2 -> k1 = k2.
+Hypothesis enc_pf : forall k1 k2, prefix_free_pair (enc k1) (enc k2).
+Variable c : core.
+Variable s : KV.store.
+Hypothesis R : Refines i enc venc c s.
+Hypothesis I : CoreInv c.
+Variable v : V.
+Variables lo hi : bytes.
+Hypothesis BLo : forall k, prefix_free_pair lo (enc k).
+Hypothesis BHi : forall k, prefix_free_pair hi (enc k).
+Hypothesis PF : prefix_free_pair lo hi.
+Hypothesis LE : lex_le lo hi.
+
+Lemma refine_get_range_abs :
+  get_range (best_of_core c v) (rcx i v) lo hi s
+  = res_map (map (fun kx => (enc (fst kx), venc (snd kx)))) (abs_get_range enc c v lo hi).
+Proof.
+  destruct (refine_get_range i enc venc Hi enc_inj enc_pf c s R I v lo hi BLo BHi PF LE) as (ks & E & S & M).
+  rewrite E, vals_of_range_of_core. unfold abs_get_range, abs_gets.
+  now rewrite (interval_keys_spec enc enc_inj c lo hi ks S M).
+Qed.
+
+Lemma refine_keys_in_range_abs :
+  keys_in_range (best_of_core c v) (rcx i v) lo hi s = res_map (map enc) (abs_keys_in_range enc c v lo hi).
+Proof.
+  rewrite keys_in_range_as_get_range.
+  destruct (refine_get_range i enc (fun _ => []) Hi enc_inj enc_pf c (strip true s) (refines_strip i enc venc c s R) I v lo hi BLo BHi PF LE)
+    as (ks & E & S & M).
+  rewrite E, keys_of_range_of_core. unfold abs_keys_in_range, abs_gets.
+  now rewrite (interval_keys_spec enc enc_inj c lo hi ks S M).
+Qed.
+End AbsRanges.
+
+(* ---- DeleteRange refines the abstract operation ---- *)
+Lemma core_with_is_with_entry c k v e : core_with c k v e = with_entry c k v e.
+Proof. reflexivity. Qed.
+
+Lemma refines_delete_keys i enc venc : id_ok i -> (forall k1 k2, enc k1 = enc k2 -> k1 = k2) ->
+  forall v, id_ok v -> forall ks c s, Refines i enc venc c s ->
+  Refines i enc venc (core_delete_keys c v ks) (fold_left (fun acc t => delete (rcx i v) t acc) (map enc ks) s).
+Proof.
+  intros Hi EI v Hv ks. induction ks as [|k ks IH]; intros c s R; [exact R|].
+  cbn [map fold_left core_delete_keys]. apply IH. rewrite core_with_is_with_entry. now apply refines_delete.
+Qed.
+
+Lemma refine_delete_range i enc venc : id_ok i -> (forall k1 k2, enc k1 = enc k2 -> k1 = k2) ->
+  (forall k1 k2, prefix_free_pair (enc k1) (enc k2)) ->
+  forall c s, Refines i enc venc c s -> CoreInv c -> forall v lo hi, id_ok v ->
+  (forall k, prefix_free_pair lo (enc k)) -> (forall k, prefix_free_pair hi (enc k)) ->
+  prefix_free_pair lo hi -> lex_le lo hi ->
+  forall c', core_delete_range enc c v lo hi = Ok c' ->
+  exists s', delete_range (best_of_core c v) (rcx i v) lo hi s = Ok s' /\ Refines i enc venc c' s'.
+Proof.
+  intros Hi EI EP c s R I v lo hi Hv BLo BHi PF LE c' D.
+  unfold core_delete_range in D.
+  pose proof (refine_keys_in_range_abs i enc venc Hi EI EP c s R I v lo hi BLo BHi PF LE) as K.
+  destruct (abs_keys_in_range enc c v lo hi) as [ks| |]; try discriminate.
+  cbn [res_map] in D, K. apply Ok_inj in D. subst c'.
+  eexists. split; [apply delete_range_keys; exact K|].
+  now apply refines_delete_keys.
+Qed.
+
+(* what the abstract operation does to the entries, and hence to every read *)
+Lemma ent_of_delete_keys v ks : forall c k u,
+  ent_of (core_delete_keys c v ks) k u = if existsb (N.eqb k) ks && (u =? v) then Some Tomb else ent_of c k u.
+Proof.
+  induction ks as [|a ks IH]; intros c k u; [reflexivity|].
+  cbn [core_delete_keys fold_left existsb]. fold (core_delete_keys (core_with c a v Tomb) v ks). rewrite IH.
+  destruct (existsb (N.eqb k) ks && (u =? v)) eqn:E.
+  - apply andb_true_iff in E as [E1 E2]. now rewrite E1, E2, orb_true_r.
+  - unfold ent_of at 1. cbn [core_with Core.store lookup_kv]. fold (ent_of c k u).
+    destruct (k =? a) eqn:Ka; cbn [orb andb].
+    + destruct (u =? v) eqn:Uv; [reflexivity|]. rewrite andb_false_r in *. reflexivity.
+    + apply andb_false_iff in E. destruct E as [-> | ->]; [reflexivity|now rewrite andb_false_r].
+Qed.
+
+Lemma core_delete_keys_fields c v ks :
+  next (core_delete_keys c v ks) = next c /\ dag (core_delete_keys c v ks) = dag c /\
+  nodes (core_delete_keys c v ks) = nodes c /\ locked (core_delete_keys c v ks) = locked c.
+Proof. revert c. induction ks as [|a ks IH]; intro c; [auto|]. cbn [core_delete_keys fold_left]. apply (IH (core_with c a v Tomb)). Qed.
+
+Lemma core_delete_keys_inv c v ks : CoreInv c -> CoreInv (core_delete_keys c v ks).
+Proof.
+  intros [I1 I2 I3]. destruct (core_delete_keys_fields c v ks) as (E1 & E2 & E3 & E4).
+  constructor; rewrite ?E1, ?E2, ?E3, ?E4; assumption.
+Qed.
+
+Section DeleteReads.
+Variable c : core.
+Hypothesis I : CoreInv c.
+Variable v : V.
+Variable ks : list N.
+Let c' := core_delete_keys c v ks.
+Let I' : CoreInv c' := core_delete_keys_inv c v ks I.
+Let par_eq : cpar c' = cpar c.
+Proof. unfold cpar, c'. destruct (core_delete_keys_fields c v ks) as (_ & -> & _). reflexivity. Qed.
+
+(* a key of the list reads as absent at v *)
+Lemma delete_keys_get_self k : In k ks -> get c' k v = RNone.
+Proof.
+  intro Hk. unfold get.
+  change RNone with (match Tomb with Val x => RFound v x | Tomb => RNone end).
+  eapply (read_self (cpar c') (crank c')).
+  - apply crank_par. exact I'.
+  - intro y. apply crank_fuel.
+  - apply crank_fuel.
+  - unfold c'. rewrite ent_of_delete_keys, N.eqb_refl, andb_true_r.
+    replace (existsb (N.eqb k) ks) with true; [reflexivity|]. symmetry. apply existsb_exists. exists k. split; [exact Hk|apply N.eqb_refl].
+Qed.
+
+(* a version with a single parent and no entry of its own reads what the parent reads (any core) *)
+Lemma core_get_inherit (c0 : core) k d p : CoreInv c0 -> cpar c0 d = [p] -> ent_of c0 k d = None ->
+  get c0 k d = get c0 k p.
+Proof.
+  intros I0 P E. unfold get. eapply (read_inherit (cpar c0) (crank c0)).
+  - apply crank_par. exact I0.
+  - intro y. apply crank_fuel.
+  - apply crank_fuel.
+  - exact E.
+  - exact P.
+Qed.
+
+(* ... so a child of v without its own entry no longer sees the key *)
+Lemma delete_keys_get_child k d : In k ks -> cpar c d = [v] -> ent_of c k d = None -> get c' k d = RNone.
+Proof.
+  intros Hk P E. rewrite <- (delete_keys_get_self k Hk). apply core_get_inherit; [exact I'|now rewrite par_eq|].
+  unfold c'. rewrite ent_of_delete_keys.
+  assert (NE : d <> v).
+  { intro H. subst d. pose proof (crank_par c I v v) as Q. rewrite P in Q. specialize (Q (or_introl eq_refl)). lia. }
+  apply N.eqb_neq in NE. now rewrite NE, andb_false_r.
+Qed.
+
+(* other keys everywhere, and every key at versions that are not v or a descendant of v
+   (ancestors, siblings, other branches), read what they read before *)
+Lemma delete_keys_get_other k u : (~ In k ks \/ ~ anc (cpar c) v u) -> get c' k u = get c k u.
+Proof.
+  intro H. apply get_unique; [exact I'|]. rewrite par_eq.
+  eapply read_spec_ext; [|apply get_spec; exact I].
+  intros w A. split; [reflexivity|]. unfold c'. rewrite ent_of_delete_keys.
+  destruct (existsb (N.eqb k) ks && (w =? v)) eqn:E; [|reflexivity]. exfalso.
+  apply andb_true_iff in E as [E1 E2]. apply N.eqb_eq in E2. subst w.
+  apply existsb_exists in E1 as (x & Hx & Ex). apply N.eqb_eq in Ex. subst x.
+  destruct H as [H|H]; contradiction.
+Qed.
+End DeleteReads.
+
+(* the keys the abstract DeleteRange removes: those of the interval that read as a value at v *)
+Lemma keys_of_core_in l : forall ks, keys_of_core l = Ok ks ->
+  forall k, In k ks <-> exists u x, In (k, RFound u x) l.
+Proof.
+  induction l as [|[a r] l IH]; intros ks E k.
+  - apply Ok_inj in E. subst ks. split; [intros []|intros (u & x & [])].
+  - destruct r as [u0 x0| | |]; cbn [keys_of_core] in E; try discriminate.
+    + destruct (keys_of_core l) as [ks'| |] eqn:K; try discriminate. cbn [res_bind] in E. apply Ok_inj in E. subst ks.
+      specialize (IH ks' eq_refl k). split.
+      * intros [<-|H]; [exists u0, x0; now left|]. apply IH in H as (u & x & H). exists u, x. now right.
+      * intros (u & x & [H|H]); [inversion H; now left|]. right. apply IH. now exists u, x.
+    + specialize (IH ks E k). rewrite IH. split; intros (u & x & H); exists u, x; [now right|].
+      destruct H as [H|H]; [discriminate|exact H].
+Qed.
+
+(* ---- keyvalue endpoints ---- *)
+Section KvEndpoints.
+Variable i : N.
+Variable kstr : N -> bytes.
+Variable venc : N -> bytes.
+Hypothesis Hi : id_ok i.
+Hypothesis kstr_inj : forall k1 k2, kstr k1 = kstr k2 -> k1 = k2.
+Hypothesis kstr_nul : forall k, ~ In 0 (kstr k).
+Hypothesis kstr_ne : forall k, kstr k <> [].
+Notation enc := (kv_enc kstr).
+
+Lemma kv_tkey_inj a b : kv_tkey a = kv_tkey b -> a = b.
+Proof.
+  unfold kv_tkey, tkey_of. cbn [kc_shape kc_keyvalue_NewTKey]. unfold new_tkey. intro E.
+  inversion E as [H]. now apply app_inv_tail in H.
+Qed.
+Lemma kv_enc_inj k1 k2 : enc k1 = enc k2 -> k1 = k2.
+Proof. intro E. apply kstr_inj. now apply kv_tkey_inj. Qed.
+Lemma kv_tkey_pf a b : ~ In 0 a -> ~ In 0 b -> prefix_free_pair (kv_tkey a) (kv_tkey b).
+Proof. intros Ha Hb. unfold kv_tkey. apply tkey_of_prefix_free; exact Ha || exact Hb. Qed.
+Lemma kv_enc_pf k1 k2 : prefix_free_pair (enc k1) (enc k2).
+Proof. apply kv_tkey_pf; apply kstr_nul. Qed.
+
+Lemma kv_new_tkey_ok a : ~ In 0 a -> kv_new_tkey a = Ok (kv_tkey a).
+Proof.
+  intro Ha. unfold kv_new_tkey. replace (existsb (N.eqb 0) a) with false; [reflexivity|].
+  symmetry. apply not_true_is_false. intro H. apply existsb_exists in H as (x & Hx & Ex).
+  apply N.eqb_eq in Ex. subst x. contradiction.
+Qed.
+
+Lemma decode_all_enc ks : decode_all (map enc ks) = Ok (map kstr ks).
+Proof.
+  induction ks as [|k ks IH]; [reflexivity|]. cbn [map decode_all]. unfold kv_enc at 1, kv_tkey.
+  rewrite (decode_term_tkey_of kc_keyvalue_NewTKey 0 (kstr k) eq_refl (kstr_ne k)). cbn [res_bind].
+  now rewrite IH.
+Qed.
+
+Variable c : core.
+Variable s : KV.store.
+Hypothesis R : Refines i enc venc c s.
+Hypothesis I : CoreInv c.
+Variable v : V.
+
+(* GET key/k *)
+Lemma refine_kv_get_data k :
+  kv_get_data (best_of_core c v) (rcx i v) (kstr k) s = Ok (point_of venc (get c k v)).
+Proof.
+  unfold kv_get_data. rewrite (kv_new_tkey_ok _ (kstr_nul k)). cbn [res_bind]. f_equal.
+  exact (refine_point_get i enc venc Hi kv_enc_inj c s R I k v).
+Qed.
+
+Lemma res_map_bind {B} (f : list N -> B) (g : B -> res (list bytes)) (r : res (list N)) :
+  (forall a, g (f a) = Ok (map kstr a)) -> res_bind (res_map f r) g = res_map (map kstr) r.
+Proof. intro H. destruct r; simpl; auto. Qed.
+
+(* GET keyrange/a/b *)
+Lemma refine_kv_keyrange a b : ~ In 0 a -> ~ In 0 b -> lex_le a b ->
+  kv_keyrange (best_of_core c v) (rcx i v) a b s
+  = res_map (map kstr) (abs_keys_in_range enc c v (kv_tkey a) (kv_tkey b)).
+Proof.
+  intros Ha Hb LE. unfold kv_keyrange. rewrite (kv_new_tkey_ok a Ha), (kv_new_tkey_ok b Hb). cbn [res_bind].
+  rewrite (refine_keys_in_range_abs i enc venc Hi kv_enc_inj kv_enc_pf c s R I v (kv_tkey a) (kv_tkey b)).
+  - apply res_map_bind. exact decode_all_enc.
+  - intro k. apply kv_tkey_pf; [exact Ha|apply kstr_nul].
+  - intro k. apply kv_tkey_pf; [exact Hb|apply kstr_nul].
+  - now apply kv_tkey_pf.
+  - unfold lex_le. now rewrite kv_string_order.
+Qed.
+
+Lemma class_bound_pf m k : m <> n_tkeyStandardByte -> prefix_free_pair [177; m] (enc k).
+Proof.
+  intro H. unfold kv_enc, kv_tkey, tkey_of. cbn [kc_shape kc_class kc_keyvalue_NewTKey]. unfold new_tkey.
+  apply prefix_free_pair_cons. now apply prefix_free_pair_head.
+Qed.
+
+(* GET keys *)
+Lemma refine_kv_keys :
+  kv_keys (best_of_core c v) (rcx i v) s
+  = res_map (map kstr) (abs_keys_in_range enc c v (min_tkey 177) (max_tkey 177)).
+Proof.
+  unfold kv_keys. cbn [kc_class kc_keyvalue_NewTKey].
+  rewrite (refine_keys_in_range_abs i enc venc Hi kv_enc_inj kv_enc_pf c s R I v (min_tkey 177) (max_tkey 177)).
+  - apply res_map_bind. exact decode_all_enc.
+  - intro k. apply class_bound_pf. vm_compute. discriminate.
+  - intro k. apply class_bound_pf. vm_compute. discriminate.
+  - apply prefix_free_pair_eqlen. reflexivity.
+  - vm_compute. discriminate.
+Qed.
+
+(* ... and GET keys lists every abstract key: the class bounds enclose every key string *)
+Lemma kv_class_encloses k : lex_leb (min_tkey 177) (enc k) && lex_leb (enc k) (max_tkey 177) = true.
+Proof.
+  unfold kv_enc, kv_tkey, tkey_of. cbn [kc_shape kc_class kc_keyvalue_NewTKey]. unfold new_tkey, min_tkey, max_tkey, lex_leb.
+  rewrite !lex_compare_cons. reflexivity.
+Qed.
+Lemma kv_keys_all : interval_keys enc c (min_tkey 177) (max_tkey 177) = sort_by enc (core_keys c).
+Proof.
+  unfold interval_keys. f_equal. induction (core_keys c) as [|k l IH]; [reflexivity|].
+  cbn [filter]. rewrite kv_class_encloses. now rewrite IH.
+Qed.
+
+(* GET keyrangevalues/a/b *)
+Lemma refine_kv_keyrangevalues a b : ~ In 0 a -> ~ In 0 b -> lex_le a b ->
+  kv_keyrangevalues (best_of_core c v) (rcx i v) a b s
+  = res_map (map (fun kx => (kstr (fst kx), venc (snd kx)))) (abs_get_range enc c v (kv_tkey a) (kv_tkey b)).
+Proof.
+  intros Ha Hb LE. unfold kv_keyrangevalues. rewrite (kv_new_tkey_ok a Ha), (kv_new_tkey_ok b Hb). cbn [res_bind].
+  rewrite (refine_get_range_abs i enc venc Hi kv_enc_inj kv_enc_pf c s R I v (kv_tkey a) (kv_tkey b)).
+  - destruct (abs_get_range enc c v (kv_tkey a) (kv_tkey b)) as [l| |]; cbn [res_map res_bind]; try reflexivity.
+    induction l as [|[k x] l IH]; [reflexivity|]. cbn [map fst snd]. unfold kv_enc at 1, kv_tkey.
+    rewrite (decode_term_tkey_of kc_keyvalue_NewTKey 0 (kstr k) eq_refl (kstr_ne k)). cbn [res_bind].
+    fold (kv_tkey). rewrite IH. reflexivity.
+  - intro k. apply kv_tkey_pf; [exact Ha|apply kstr_nul].
+  - intro k. apply kv_tkey_pf; [exact Hb|apply kstr_nul].
+  - now apply kv_tkey_pf.
+  - unfold lex_le. now rewrite kv_string_order.
+Qed.
+End KvEndpoints.
+
+(* which keys a keys-only listing of [lo, hi] at v reports (and DeleteRange removes): exactly the
+   abstract keys that encode into the interval and read as a value at v *)
+Lemma abs_keys_in_range_spec enc : (forall k1 k2, enc k1 = enc k2 -> k1 = k2) ->
+  forall c, CoreInv c -> forall v lo hi ks, abs_keys_in_range enc c v lo hi = Ok ks ->
+  forall k, In k ks <-> (lex_le lo (enc k) /\ lex_le (enc k) hi /\ exists u x, get c k v = RFound u x).
+Proof.
+  intros EI c I v lo hi ks E k. unfold abs_keys_in_range in E. rewrite (keys_of_core_in _ ks E k).
+  unfold abs_gets, interval_keys. split.
+  - intros (u & x & H). apply in_map_iff in H as (k' & EQ & H). inversion EQ as [[E1 E2]]. subst k'.
+    rewrite (sort_by_in enc EI) in H. apply filter_In in H as [_ H]. apply andb_true_iff in H as [H1 H2].
+    apply lex_leb_le in H1, H2. split; [exact H1|]. split; [exact H2|]. now exists u, x.
+  - intros (L1 & L2 & u & x & G). exists u, x. apply in_map_iff. exists k. split; [now rewrite G|].
+    rewrite (sort_by_in enc EI). apply filter_In. split.
+    + apply core_keys_spec. exists u. pose proof (get_spec c k v I) as SP. rewrite G in SP.
+      destruct SP as (_ & EU & _). fold (cpar c) in EU. congruence.
+    + apply andb_true_iff. split; now apply lex_leb_le.
 Qed.
